@@ -310,6 +310,12 @@ def assemble(unit, inst, contracts, outs):
     for n, t in read_fragments("math", unit.get("math", ""), inst):
         a.add("// ===== math/%s (pure lemmas, no repository code)" % n, "math")
         a.add(t, "math:" + n)
+    for n, t in read_fragments("math", unit.get("math_stub", ""), inst):
+        # lemma statements only: the proofs are discharged by the unit that lists the file under `math:`
+        a.add("// ===== math/%s (lemma STATEMENTS; proofs discharged in the lemmas_* units)" % n, "math")
+        t = re.sub(r"(?m)^(pub proof fn )", r"#[verifier::external_body] \1", t)
+        t = re.sub(r"//\s*@ob[^\n]*", "", t)
+        a.add(t, "mathstub:" + n)
     a.add("} // mod base", "header")
     a.add("use base::*;", "header")
     bc = []
